@@ -31,4 +31,43 @@ def generate(repo, T):
     comp = T.strip_comments(T.read(repo, "req/include/req_compactor_impl.hpp"))
     if not re.search(r"section_size_raw_\s*/\s*sqrtf\(\s*2\s*\)", comp):
         T.fail("ensure_enough_sections: `section_size_raw_ / sqrtf(2)` not found in req_compactor_impl.hpp")
+    # ---- source shapes of the two repaired defects (pinned shape = flag false, repaired shape = flag true, anything else = failure)
+    def norm(x):
+        return "".join(x.split())
+    # (a) const_iterator: does it skip empty compactors (constructor AND operator++)?
+    mc = re.search(r"const_iterator::const_iterator\(LevelsIterator begin, LevelsIterator end\):(.*?)\n\}?\s*\n\s*template", impl, flags=re.S)
+    mi = re.search(r"const_iterator::operator\+\+\(\)\s*->\s*const_iterator&\s*\{(.*?)return \*this;", impl, flags=re.S)
+    SKIP = "while(levels_it_!=levels_end_&&(*levels_it_).begin()==(*levels_it_).end())++levels_it_;"
+    CT_PINNED = "levels_it_(begin),levels_end_(end),compactor_it_(begin==end?nullptr:(*levels_it_).begin()){"
+    CT_REPAIRED = "levels_it_(begin),levels_end_(end),compactor_it_(nullptr){" + SKIP + "if(levels_it_!=levels_end_)compactor_it_=(*levels_it_).begin();"
+    INC_PINNED = "++compactor_it_;if(compactor_it_==(*levels_it_).end()){++levels_it_;if(levels_it_!=levels_end_)compactor_it_=(*levels_it_).begin();}"
+    INC_REPAIRED = "++compactor_it_;if(compactor_it_==(*levels_it_).end()){++levels_it_;" + SKIP + "if(levels_it_!=levels_end_)compactor_it_=(*levels_it_).begin();}"
+    flag_iter = "false"
+    if not mc or not mi:
+        T.fail("req_sketch::const_iterator constructor / operator++ not found in req_sketch_impl.hpp")
+    else:
+        ct, inc = norm(mc.group(1)).rstrip("}"), norm(mi.group(1))
+        if ct == CT_PINNED.rstrip("}") + "" and inc == INC_PINNED:
+            flag_iter = "false"
+        elif ct == CT_REPAIRED and inc == INC_REPAIRED:
+            flag_iter = "true"
+        else:
+            T.fail("req_sketch::const_iterator has an unknown shape (constructor %r, operator++ %r)" % (ct[:200], inc[:200]))
+    extra.append("/-- the const_iterator skips empty compactors in its constructor and in operator++ (true) or starts inside compactor 0 (false) -/")
+    extra.append("def req_ITER_SKIPS_EMPTY : Bool := %s" % flag_iter)
+    # (b) get_quantile: range check of the rank
+    mq = re.search(r"::get_quantile\(double rank, bool inclusive\) const -> quantile_return_type \{.*?if \(([^;{}]*)\) \{\s*throw std::invalid_argument\(\"Normalized rank", impl, flags=re.S)
+    flag_nan = "false"
+    if not mq:
+        T.fail("req_sketch::get_quantile range check not found in req_sketch_impl.hpp")
+    else:
+        g = norm(mq.group(1))
+        if g == "(rank<0.0)||(rank>1.0)":
+            flag_nan = "false"
+        elif g == "!(rank>=0.0&&rank<=1.0)":
+            flag_nan = "true"
+        else:
+            T.fail("req_sketch::get_quantile range check has an unknown shape: %r" % mq.group(1))
+    extra.append("/-- get_quantile rejects a rank unless `rank >= 0 && rank <= 1` (true: NaN rejected) or only if `rank < 0 || rank > 1` (false: NaN passes) -/")
+    extra.append("def req_NAN_RANK_REJECTED : Bool := %s" % flag_nan)
     return {"Req.lean": body.replace("\nend DSGen", "\n".join(extra) + "\n\nend DSGen")}
